@@ -316,7 +316,8 @@ class GHE(BaseGHE):
             # How many times does q need to be repeated?
             n_years = ceil(n_hours / 8760)
             if len(q_dot) // 8760 < n_years:
-                q_dot = q_dot * n_years
+                # repeat the year and keep the hours of the horizon (it need not be a whole number of years)
+                q_dot = (q_dot * n_years)[0:n_hours]
             else:
                 n_hours = len(q_dot)
             q_dot = -1.0 * np.array(q_dot)  # Convert loads to rejection
